@@ -141,6 +141,8 @@ def run_case(c):
                 cc.add_note(content(a["arg"], "nc"))
             elif op == "comp_plus_note":
                 cc + content(a["arg"], "nc")
+            elif op == "comp_direct":
+                cc.tracks[a["track"] - 1].add_notes(content(a["arg"], "nc"), 8)
         for a in c["acts"]:
             inp = {kk: vv for kk, vv in a.items() if kk != "op"}
             rec = call(a["op"], inp, lambda: ap(comp, a), lambda _: 0)
